@@ -78,6 +78,9 @@ def gen_grid(rng, kind, G):
         return [rng.randint(-3, 0) for _ in range(G)]
     if kind == "flat":
         return [-1] * G
+    if kind == "huge":  # log-likelihoods of clones with thousands of mutations: large magnitude, small differences
+        base = -rng.choice([10**7, 3 * 10**7, 10**8])
+        return [base + rng.randint(0, 40) for _ in range(G)]
     if kind == "peaked":  # unimodal like a real likelihood
         c = rng.randrange(G)
         w = rng.randint(1, 30)
@@ -112,10 +115,18 @@ def eval_tree(ctx, ci, f_key, roots, G, S, kind, n_out, grids, records, tasks, h
     replay = {"roots": roots, "grid": G, "samples": S, "kind": kind, "outliers": n_out, "grids": grids, "history": [list(op) for op in history]}
     key_base = "C10:get_map_node_ccfs_and_clonal_prev_dicts:%%s:nodes=%d:kids=%d" % (sig[0], sig[1])
     try:
+        lik_before = np.array(tree.data_log_likelihood, dtype=float)
+        first = get_map_node_ccfs_and_clonal_prev_dicts(tree)
+        # the summary is asked again for the SAME tree object (the commands do so for tables, archives and reports): it must not
+        # have changed the tree, and the later answers are the ones checked below
+        get_map_node_ccfs_and_clonal_prev_dicts(tree)
         ccf, prev = get_map_node_ccfs_and_clonal_prev_dicts(tree)
     except Exception as e:  # the summary must be total on trees with at least one clone
         ctx.fail(key_base % "raises", "raised %r" % (e,), replay)
         return
+    same = all(np.array_equal(np.asarray(first[0][k]), np.asarray(ccf[k])) for k in first[0]) and set(first[0]) == set(ccf)
+    if not same or not np.array_equal(lik_before, np.array(tree.data_log_likelihood, dtype=float)):
+        ctx.fail(key_base % "repeated-request", "asking for the MAP assignment of the same tree object again %s" % ("gives different CCFs" if not same else "changed the tree's likelihood vectors"), replay)
     # pre-order view through the public accessors
     nodes = []
 
@@ -218,7 +229,7 @@ def run(ctx):
     shapes = []
     for n in range(1, nmax + 1):
         shapes += _forests(n)
-    kinds = ["wide", "peaked", "narrow", "flat", "wide"]
+    kinds = ["wide", "peaked", "huge", "flat", "narrow"]
     plan = []
     for f in shapes:
         n = sum(_tsize(t) for t in f)
